@@ -1,4 +1,5 @@
 import PEval.Lemmas.MatchingUnique
+import PEval.Lemmas.MatchingCertificate
 import PEval.Lemmas.MatchingRowMajor
 import PEval.Lemmas.MatchingTotal
 import PEval.Properties.KernelMatchable
@@ -88,6 +89,23 @@ theorem refines_greedy_spec (c : Cfg) (sc : Scene) :
       (matchAll (mkTbl c sc) sc.ests.length sc.gts.length) :=
   matchFrom_refines _ _ _
 
+/-- Other tie winners: the property leaves the winner of an exact score tie open ("a partner scoring at least as well"), the
+model fixes it.  An outcome of the real code that pairs differently is accepted by the correspondence exactly when the checker
+`checkTwoStage` (lean/PEval/Lemmas/MatchingCertificate.lean; run by the driver on the order of picks the harness proposes)
+accepts it - and an accepted certificate IS a run of the documented relation making exactly the proposed pairs. -/
+theorem certificate_sound {c : Cfg} {sc : Scene} {picks1 picks2 : List (Nat × Nat)} {st : St}
+    (h : checkTwoStage (mkTbl c sc) (List.range sc.ests.length) (List.range sc.gts.length) picks1 picks2 = some st) :
+    TwoStageRun (mkTbl c sc) (List.range sc.ests.length) (List.range sc.gts.length) st ∧ st.pairs = picks1 ++ picks2 :=
+  ⟨checkTwoStage_sound _ _ _ _ _ _ h, checkTwoStage_pairs _ _ _ _ _ _ h⟩
+
+/-- … and without ties the only accepted certificate is the result itself. -/
+theorem certificate_unique_of_no_ties {c : Cfg} {sc : Scene} {rs : List Res} (hr : getObjectResults c sc = .ok rs)
+    (hnt : NoTies (mkTbl c sc)) {picks1 picks2 : List (Nat × Nat)} {st : St}
+    (h : checkTwoStage (mkTbl c sc) (List.range sc.ests.length) (List.range sc.gts.length) picks1 picks2 = some st) :
+    rs = resultsOf c.fpValidation st := by
+  rw [getObjectResults_ok hr, twoStageRun_unique hnt (certificate_sound h).1 (matchFrom_refines _ _ _)]
+  rfl
+
 /-- When no two scores tie the relation has exactly one path, so the results ARE the documented
 two-stage greedy assignment … -/
 theorem greedy_unique_of_no_ties {c : Cfg} {sc : Scene} {rs : List Res} (h : getObjectResults c sc = .ok rs)
@@ -118,6 +136,18 @@ def exScene : Scene :=
     val := fun i j => (1 : Rat) + 2 * i + 7 * j + 3 * i * j }
 
 example : getObjectResults exCfg exScene = .ok [(1, some 0), (0, some 1), (2, none)] := by decide +kernel
+
+/-- a tie: two estimates at the same distance from one ground truth.  The model pairs estimate 0 (row-major); the other winner
+is a run of the documented relation as well (accepted certificate), pairing the worse estimate 2 is not (rejected). -/
+def exTieCert : Scene :=
+  { ests := [⟨"car", "base_link"⟩, ⟨"car", "base_link"⟩, ⟨"car", "base_link"⟩], gts := [⟨"car", "base_link"⟩],
+    val := fun i _ => if i == 2 then 5 else 1 }
+
+example : getObjectResults exCfg exTieCert = .ok [(0, some 0), (1, none), (2, none)] := by decide +kernel
+example : (checkTwoStage (mkTbl exCfg exTieCert) (List.range 3) (List.range 1) [(1, 0)] []).isSome = true := by decide +kernel
+example : (checkTwoStage (mkTbl exCfg exTieCert) (List.range 3) (List.range 1) [(0, 0)] []).isSome = true := by decide +kernel
+example : (checkTwoStage (mkTbl exCfg exTieCert) (List.range 3) (List.range 1) [(2, 0)] []).isSome = false := by decide +kernel
+example : (checkTwoStage (mkTbl exCfg exTieCert) (List.range 3) (List.range 1) [] []).isSome = false := by decide +kernel
 example : (mkTbl exCfg exScene).score 0 0 = some 1 ∧ (mkTbl exCfg exScene).valid 0 0 = false ∧
     (mkTbl exCfg exScene).score 1 0 = some 3 ∧ (mkTbl exCfg exScene).valid 1 0 = true := by decide +kernel
 
